@@ -29,6 +29,8 @@ type liveState struct {
 	// onCanceled is told which subscription instance got a context.Canceled
 	// error from a resolver
 	onCanceled func(inst int)
+	// onFailure is told which instance got an ordinary (non-cancellation) failure
+	onFailure func(inst int)
 }
 
 type liveRes struct {
@@ -77,6 +79,9 @@ func (l *liveState) dep(ctx context.Context, field string, id int64) error {
 	reactive.AddDependency(ctx, r.res, nil)
 	if n := l.failNext[key]; n > 0 {
 		l.failNext[key] = n - 1
+		if k := l.failKind[key]; k >= 1 && k <= 3 && l.onFailure != nil {
+			l.onFailure(inst)
+		}
 		switch l.failKind[key] {
 		case 1:
 			l.w.c.Fault("resolver-error")
@@ -87,6 +92,21 @@ func (l *liveState) dep(ctx context.Context, field string, id int64) error {
 		case 3:
 			l.w.c.Fault("resolver-panic")
 			panic("SECRET-panic-" + key)
+		case 5:
+			// an ordinary failure whose cause happens to be a cancellation further
+			// down (for instance a timed-out backend call): not a cancellation of
+			// the subscription
+			l.w.c.Fault("resolver-error-wrapping-canceled")
+			if l.onFailure != nil {
+				l.onFailure(inst)
+			}
+			return fmt.Errorf("SECRET-backend-call-failed: %w", context.Canceled)
+		case 6:
+			l.w.c.Fault("resolver-safe-error-wrapping-canceled")
+			if l.onFailure != nil {
+				l.onFailure(inst)
+			}
+			return graphql.WrapAsSafeError(context.Canceled, "safe-backend-busy-%s", key)
 		case 4:
 			// a resolver whose own work was cancelled (for instance a database
 			// call): the subscription ends itself
